@@ -109,6 +109,9 @@ type scope struct {
 // ownVariables makes sure that variables can be written to: the map a caller
 // passed to Execute is the caller's; it is copied before the first write.
 func (s *scope) ownVariables() {
+	if s.variables == nil {
+		s.variables = make(VarMap) // Execute was given no VarMap
+	}
 	if s.callersVars {
 		vars := make(VarMap, len(s.variables)+1)
 		for k, v := range s.variables {
@@ -189,6 +192,7 @@ func (state *Runtime) Set(name string, val interface{}) error {
 
 // Let initialises a variable in the current template scope (possibly shadowing an existing variable of the same name in a parent scope).
 func (state *Runtime) Let(name string, val interface{}) {
+	state.scope.ownVariables()
 	state.scope.variables[name] = reflect.ValueOf(val)
 }
 
